@@ -106,7 +106,7 @@ func (c c21Case) coq() string {
 	return vApp("mkCase", c.Cfg.coq(), vList(ops), vList(fin), vBool(c.Asc), vZ(int64(c.Limit)), vList(pgs), vList(prs), vList(ops2))
 }
 
-func c21Run(t *testing.T, r *rand.Rand, cfg c20Raw, keys []string, style int, n int, limit int, asc bool, churn bool) c21Case {
+func c21Run(t *testing.T, r *rand.Rand, cfg c20Raw, keys []string, style int, n int, limit int, asc bool, churn bool, preRead int) c21Case {
 	e := c20NewEnv(t, []c20Raw{cfg}, []string{"c0", "c1"})
 	c := c21Case{Cfg: cfg, Asc: asc, Limit: limit}
 	state := map[string]c21Entry{}
@@ -122,6 +122,13 @@ func c21Run(t *testing.T, r *rand.Rand, cfg c20Raw, keys []string, style int, n 
 		if !ob.isErr && !ob.suppressed {
 			state[k] = c21Entry{Key: k, Score: score, Data: data}
 		}
+	}
+	// the channel object may be created by a read (pinning the epoch) before the first publish
+	switch preRead {
+	case 1:
+		do(c20Op{Kind: "rstate", Ch: 0, Limit: -1, Asc: asc, Tags: -1})
+	case 2:
+		do(c20Op{Kind: "rstream", Ch: 0, Limit: -1, Tags: -1})
 	}
 	for _, k := range keys {
 		pub(k, c21Score(r, style))
@@ -218,6 +225,7 @@ func TestVerifC21(t *testing.T) {
 		}
 		asc := r.Intn(2) == 0
 		churn := r.Intn(3) == 0
+		preRead := r.Intn(4) // 0,3: none; 1: ReadState first; 2: ReadStream first
 		// fixed low indices: the classic shapes
 		switch i {
 		case 0:
@@ -228,9 +236,16 @@ func TestVerifC21(t *testing.T) {
 			cfg, keys, style, limit, asc, churn = c20Raw{Mode: 3}, []string{"a", "ab", "a\x00", "a\x00\x00", "\xff", "\x00"}, 1, 2, false, false
 		case 3:
 			cfg, keys, style, limit, asc, churn = c20Raw{Mode: 3, Ordered: true}, nil, 0, 3, true, false
+		case 4:
+			cfg, keys, style, limit, asc, churn, preRead = c20Raw{Mode: 3, Ordered: true}, []string{"a", "b", "c", "d", "e"}, 3, 2, false, false, 1
+		case 5:
+			cfg, keys, style, limit, asc, churn, preRead = c20Raw{Mode: 2, KeyTTL: 5, Ordered: true}, []string{"a", "b", "c", "d", "e"}, 3, 2, true, false, 2
 		}
-		c := c21Run(t, r, cfg, keys, style, n, limit, asc, churn)
+		c := c21Run(t, r, cfg, keys, style, n, limit, asc, churn, preRead)
 		class := fmt.Sprintf("ord=%v/asc=%v/style%d", cfg.Ordered, asc, style)
+		if preRead == 1 || preRead == 2 {
+			class += "/preread"
+		}
 		if limit < 0 {
 			class += "/all"
 		}
